@@ -8,6 +8,15 @@ fn first_components() -> Vec<Protocol<'static>> {
         Protocol::Ip4([8, 8, 8, 8].into()),
         Protocol::Ip6("2001:db8::1".parse().unwrap()),
         Protocol::Ip6("::1".parse().unwrap()),
+        // IPv6 forms that embed an IPv4 address (a "normalising" translation would change these)
+        Protocol::Ip6("::ffff:198.51.100.7".parse().unwrap()),
+        Protocol::Ip6("::198.51.100.7".parse().unwrap()),
+        Protocol::Ip6("64:ff9b::c633:6407".parse().unwrap()),
+        Protocol::Ip6("::".parse().unwrap()),
+        Protocol::Ip4([0, 0, 0, 0].into()),
+        Protocol::Ip4([127, 0, 0, 1].into()),
+        Protocol::Dns("localhost".into()),
+        Protocol::Dns4("".into()),
         Protocol::Dns("example.com".into()),
         Protocol::Dns4("a.b".into()),
         Protocol::Dns6("x".into()),
@@ -80,7 +89,7 @@ pub fn run(args: &Args, out: &mut Out) {
     }
     let mut idx = 0u64;
     // exhaustive over the pairs of a reduced alphabet (first two tails): every (first, first) combination
-    let reduced: Vec<&Multiaddr> = alphabet.iter().take(2 * (firsts.len() + 1)).collect();
+    let reduced: Vec<&Multiaddr> = alphabet.iter().take(2 * (firsts.len() + 1)).collect(); // every (first, first) combination over two tails
     for o in &reduced {
         for b in &reduced {
             let nt = o.iter().next().is_some() && b.iter().next().is_some();
@@ -98,7 +107,21 @@ pub fn run(args: &Args, out: &mut Out) {
             let mut a = Multiaddr::empty();
             let len = rng.usize(6);
             for _ in 0..len {
-                if rng.chance(1, 2) {
+                if rng.chance(1, 8) {
+                    // arbitrary IP payloads, biased towards IPv4-embedding IPv6 prefixes
+                    if rng.bool() {
+                        a.push(Protocol::Ip4((rng.next_u64() as u32).into()));
+                    } else {
+                        let low = rng.next_u64() as u128 & 0xffff_ffff;
+                        let v: u128 = match rng.below(4) {
+                            0 => (0xffffu128 << 32) | low,
+                            1 => low,
+                            2 => (0x0064_ff9bu128 << 96) | low,
+                            _ => ((rng.next_u64() as u128) << 64) | rng.next_u64() as u128,
+                        };
+                        a.push(Protocol::Ip6(v.into()));
+                    }
+                } else if rng.chance(1, 2) {
                     a.push(rng.pick(&firsts).clone());
                 } else {
                     for p in rng.pick(&tails) {
